@@ -377,3 +377,24 @@ where
 
     Ok(())
 }
+
+/// Verification hook H3: expose the COB cache update that follows a fetch to the
+/// external simulation harness.
+#[cfg(feature = "verif")]
+pub mod verif {
+    use super::*;
+
+    pub fn cache_cobs<S, C>(
+        rid: &RepoId,
+        refs: &[RefUpdate],
+        storage: &S,
+        cache: &mut C,
+    ) -> Result<(), error::Cache>
+    where
+        S: ReadRepository + cob::Store<Namespace = NodeId>,
+        C: cob::cache::Update<cob::issue::Issue> + cob::cache::Update<cob::patch::Patch>,
+        C: cob::cache::Remove<cob::issue::Issue> + cob::cache::Remove<cob::patch::Patch>,
+    {
+        super::cache_cobs(rid, refs, storage, cache)
+    }
+}
